@@ -45,10 +45,11 @@ type rtCase struct {
 	Msgs  []mspec  `json:"msgs"`
 	Chunk chunking `json:"chunk"` // Family "tap" = wire-tap check only
 	// raw (unframed) stream cases, see rawstream.go
-	Stream   string `json:"stream,omitempty"`   // "" = NewStream, "raw" = NewRawStream
-	Wire     string `json:"wire,omitempty"`     // write | hand-compact | hand-indent
-	Sep      string `json:"sep,omitempty"`      // separator between hand-serialised values
-	Truncate int    `json:"truncate,omitempty"` // bytes cut off the end (inside the last message)
+	Stream    string `json:"stream,omitempty"`     // "" = NewStream, "raw" = NewRawStream
+	Wire      string `json:"wire,omitempty"`       // write | hand-compact | hand-spelled
+	SpellSeed int64  `json:"spell_seed,omitempty"` // alternative JSON spellings (spell.go)
+	Sep       string `json:"sep,omitempty"`        // separator between hand-serialised values
+	Truncate  int    `json:"truncate,omitempty"`   // bytes cut off the end (inside the last message)
 }
 
 func writeAll(msgs []mspec) ([]byte, error) {
@@ -86,10 +87,27 @@ func rtCheck(cs rtCase) (class, detail string) {
 		return class, detail
 	}
 	wire, err := writeAll(cs.Msgs)
+	if cs.Wire == "hand-spelled" {
+		wire, err = framedHandWire(cs)
+	}
 	if err != nil {
 		return "write-error", err.Error()
 	}
 	return rtCheckWire(cs, wire, wants)
+}
+
+// framedHandWire: length-prefixed frames whose bodies are the harness's
+// alternative spellings of the messages (what a peer's encoder may emit).
+func framedHandWire(cs rtCase) ([]byte, error) {
+	var b []byte
+	for i, m := range cs.Msgs {
+		body, err := spelled(m, cs.SpellSeed+int64(i))
+		if err != nil {
+			return nil, err
+		}
+		b = append(b, frameOf(body)...)
+	}
+	return b, nil
 }
 
 // rtCheckWire: the same with the wire image and the expected descriptions precomputed.
@@ -175,6 +193,11 @@ func chunkingsFor(wire []byte, r *rand.Rand) []chunking {
 	return out
 }
 
+func mustWire(cs rtCase) []byte {
+	w, _ := framedHandWire(cs)
+	return w
+}
+
 func genSequence(r *rand.Rand, big bool) []mspec {
 	n := 1 + r.Intn(20)
 	var out []mspec
@@ -196,7 +219,7 @@ func genSequence(r *rand.Rand, big bool) []mspec {
 
 func (k *checker) roundTrip() {
 	c := k.c
-	nSeq := c.Pick(300, 3000)
+	nSeq := c.Pick(240, 2400)
 	type job struct {
 		i    int
 		seed int64
@@ -254,6 +277,38 @@ func (k *checker) roundTrip() {
 						}
 					}
 					c.Violate("roundtrip/"+ch.Name+"/"+class, detail, red)
+				}
+				// the same sequence as a peer's encoder may spell it (escapes, surrogate
+				// pairs, "\/", white space, member order), length-prefixed
+				hs := rtCase{Msgs: msgs, Wire: "hand-spelled", SpellSeed: r.Int63n(1 << 40)}
+				if len(wire) > 400000 {
+					// the 1 MB sequences are about buffer boundaries, not spellings
+				} else if hw, err := framedHandWire(hs); err != nil {
+					c.Inconclusive("speller: " + err.Error())
+				} else {
+					k.add("spelled_wire_bytes", len(hw))
+					for _, ch := range chunkingsFor(hw, r) {
+						switch ch.Name {
+						case "whole", "one-byte", "random", "cuts-inside-runes", "cuts-one-per-header":
+						default:
+							continue
+						}
+						hs.Chunk = ch
+						c.Eval(1)
+						k.add("spelled_framed_cases", 1)
+						c.NontrivialStr("spelled", fmt.Sprint(j.seed), ch.Name)
+						if class, detail := rtCheckWire(hs, hw, wants); class != "" {
+							red := hs
+							for i, m := range msgs { // reduce to one message
+								one := rtCase{Msgs: []mspec{m}, Wire: "hand-spelled", SpellSeed: hs.SpellSeed + int64(i), Chunk: chunking{Name: "whole", Family: "whole"}}
+								if c2, d2 := rtCheck(one); c2 == class {
+									red, detail = one, d2
+									break
+								}
+							}
+							c.Violate("spelled/framed/"+class, detail+" | wire: "+clip(mustWire(red), 300), red)
+						}
+					}
 				}
 				// the same sequence through the unframed stream
 				k.rawSequence(j.seed, msgs, wants, r)
@@ -448,7 +503,7 @@ func (k *checker) concurrency() {
 	var specs []sessSpec
 	for i := 0; i < nSess; i++ {
 		n := []int{2, 8, 32}[i%3]
-		sp := sessSpec{Idx: i, Seed: r.Int63n(1 << 40), NA: n, NB: (n + 1) / 2, M: 6 + r.Intn(10), Notifiers: 1 + r.Intn(3), NotifM: 10 + r.Intn(30), Big: i%8 == 0, Raw: i%4 == 1}
+		sp := sessSpec{Idx: i, Seed: r.Int63n(1 << 40), NA: n, NB: (n + 1) / 2, M: 6 + r.Intn(10), Notifiers: 1 + r.Intn(3), NotifM: 10 + r.Intn(30), Big: i%8 == 0, Raw: i%4 == 1, Manual: i%6 == 5}
 		if n == 32 {
 			sp.M = 4 + r.Intn(6)
 		}
